@@ -886,6 +886,51 @@ Section New.
   Qed.
 End New.
 
+(* ---------------------------------------------------------------- rebase *)
+
+Lemma log_extmods_first_sat : forall Q op0 op,
+  Qmono Q -> op_mir op0 -> log_extmods_first op0 = Some op -> wsat Q (op_world op0) ->
+  wsat Q (op_world op).
+Proof.
+  intros Q op0 op HQ [_ Hi] E Hw. unfold log_extmods_first in E.
+  destruct (Nat.eqb _ _); [now injection E as <-|].
+  unfold log_external_mods in E. destruct (w_stack (op_world op0)) as [so|] eqn:Es; [|discriminate].
+  destruct (state_commit _ _ _) as [[objs' so']|] eqn:Ec; [|discriminate].
+  injection E as <-. apply state_commit_state in Ec as [Hx Ec]. cbn [op_world].
+  destruct Hi as [Hc|[Hn _]]; [|congruence].
+  apply (wsat_kept Q (op_world op0)); [exact HQ|exact Hx| |exact Hw].
+  eapply kept_cur; [exact Hc| |]; [unfold cur_state; cbn; exact Ec|reflexivity].
+Qed.
+
+Lemma run_rebase_sat : forall Q w tg, Qok Q -> wsat Q w -> wsat Q (fst (run_rebase w tg)).
+Proof.
+  intros Q w tg HQ Hw. unfold run_rebase.
+  destruct (open_stack PRequire w) as [op|] eqn:Eo; [|exact Hw].
+  pose proof (open_sat Q _ _ _ (q_mono Q HQ) Eo ltac:(discriminate) Hw) as Hw1.
+  apply open_op_mir in Eo.
+  destruct (resolve_gtarget (op_world op) tg) as [target|]; [|exact Hw1].
+  destruct (Nat.eqb target (op_base op)); [exact Hw1|].
+  destruct (negb (head_top_ok op)); [exact Hw1|].
+  destruct (dirty (op_world op)); [exact Hw1|].
+  match goal with |- context [transact ?o ?a ?f ?m] =>
+    assert (Hm : wsat Q (fst (transact o a f m))); [|destruct (transact o a f m) as [w2 x]] end.
+  { apply transact_sat; [exact (q_mono Q HQ)|exact Eo|cbn [frame]; apply fr_pop|exact Hw1|].
+    intros _ T. cbn [rsat]. now apply pop_sat. }
+  cbn [fst] in Hm. destruct x; try exact Hm.
+  match goal with |- context [open_stack PRequire ?w3'] => set (w3 := w3') end.
+  assert (Hw3 : wsat Q w3).
+  { apply (wsat_kept Q w2); [exact (q_mono Q HQ)|apply store_extends_refl|intros n; reflexivity|exact Hm]. }
+  destruct (open_stack PRequire w3) as [op3|] eqn:Eo3; [|exact Hw3].
+  pose proof (open_sat Q _ _ _ (q_mono Q HQ) Eo3 ltac:(discriminate) Hw3) as Hw3'.
+  apply open_op_mir in Eo3.
+  destruct (log_extmods_first op3) as [op4|] eqn:El; [|exact Hw3'].
+  pose proof (log_extmods_first_sat Q _ _ (q_mono Q HQ) Eo3 El Hw3') as Hw4.
+  apply (log_extmods_first_op_mir _ _ Eo3) in El.
+  destruct (negb (head_top_ok op4)); [exact Hw4|].
+  apply transact_sat; [exact (q_mono Q HQ)|exact El|apply frame_push_patches|exact Hw4|].
+  intros _ T. now apply push_patches_sat.
+Qed.
+
 (* ---------------------------------------------------------------- the theorems *)
 
 Lemma ident_kept : forall a b o c,
@@ -922,6 +967,7 @@ Proof.
   - now apply run_clean_sat.
   - now apply run_spill_sat.
   - apply run_log_clear_sat; [apply Qid_mono|exact Hw].
+  - now apply run_rebase_sat.
   - apply open_only_sat; [apply Qid_mono|discriminate|exact Hw].
 Qed.
 
@@ -999,6 +1045,114 @@ Proof.
   assert (s1 = s) by congruence. subst s1. assert (pn = top) by congruence. subst pn.
   assert (pc = otop) by congruence. subst pc.
   destruct Hcase as [[_ Hk]|[Hf _]]; [exact Hk|congruence].
+Qed.
+
+(* ---------------------------------------------------------------- edit *)
+
+Section Edit.
+  Variable w : world.
+  Variable meta : N.
+  Variable msg : str.
+
+  (* the identity of [w] is kept, or the patch (which existed in [w]) carries the new one *)
+  Definition Qedit : pred := fun objs n o' =>
+    Qid w objs n o' \/ (patch_commit w n <> None /\ ident_of objs o' = Some (meta, msg)).
+
+  Lemma ident_of_mono : forall a b o i, store_extends a b -> ident_of a o = Some i -> ident_of b o = Some i.
+  Proof.
+    intros a b o i [e ->] H. unfold ident_of in *. destruct (get a o) as [c|] eqn:E; [|discriminate].
+    now rewrite (get_app_l _ e _ _ E).
+  Qed.
+
+  Lemma Qedit_mono : Qmono Qedit.
+  Proof.
+    intros a b n o He [H|[H1 H2]]; [left; now apply (Qid_mono w a b)|right].
+    split; [exact H1|]. now apply (ident_of_mono a b).
+  Qed.
+
+  Lemma Qedit_ok : Qok Qedit.
+  Proof.
+    split; [exact Qedit_mono|].
+    intros objs n o ps tr [H|[H1 H2]]; [left; now apply (q_recommit _ (Qid_ok w))|right].
+    split; [exact H1|]. unfold ident_of in *. rewrite get_put_new. unfold subj_of.
+    destruct (get objs o) as [c|]; [|discriminate]. exact H2.
+  Qed.
+
+  Lemma edit_body_sat : forall pn o t,
+    tsat Qedit t -> Qedit (t_objs t) pn o ->
+    rsat Qedit (let above := after_name pn (t_applied t) in
+                let '(t1, extra) := pop_patches (fun n => mem n above) t in
+                match extra with
+                | _ :: _ => TPanic
+                | [] => tbind (update_patch pn o t1) (push_patches above false)
+                end).
+  Proof.
+    intros pn o t T Ho. cbv zeta.
+    pose proof (pop_sat Qedit (fun n => mem n (after_name pn (t_applied t))) t T) as T1.
+    pose proof (WfFrame.fr_pop (fun n => mem n (after_name pn (t_applied t))) t) as [_ [e He]].
+    destruct (pop_patches _ t) as [t1 extra]. cbn [fst] in T1, He.
+    destruct extra; [|exact I].
+    apply rsat_tbind.
+    - apply update_patch_sat; [exact T1|]. eapply Qedit_mono; [|exact Ho]. now exists e.
+    - intros t2 T2. apply push_patches_sat; [exact Qedit_ok|exact T2].
+  Qed.
+
+  Lemma run_edit_sat : forall loc, Inv w -> wsat Qedit (fst (run_edit w loc meta msg)).
+  Proof.
+    intros loc Hi.
+    assert (Hw : wsat Qedit w) by (intros n o E; left; now apply (Qid_init w Hi)).
+    unfold run_edit.
+    destruct (match loc with Some o => _ | None => _ end) as [loc_l|]; [|exact Hw].
+    destruct (open_stack PAllow w) as [op|] eqn:Eo; [|exact Hw].
+    pose proof (open_sat _ _ _ _ Qedit_mono Eo ltac:(discriminate) Hw) as Hw1.
+    destruct (open_patches _ _ _ Eo ltac:(discriminate)) as [_ Hk].
+    pose proof (open_op_mir _ _ _ Eo) as Hm.
+    destruct (negb (head_top_ok op)); [exact Hw1|].
+    match goal with |- wsat _ (fst (rres_bind _ ?r _)) =>
+      destruct r as [pn| |]; cbn [rres_bind]; [|exact Hw1|exact Hw1] end.
+    destruct (pm_get (s_patches (op_state op)) pn) as [pc|] eqn:Epc; [|exact Hw1].
+    destruct (get (w_objs (op_world op)) pc) as [old|]; [|exact Hw1].
+    destruct (_ && _); [exact Hw1|].
+    unfold put. cbv beta iota zeta.
+    apply transact_sat.
+    - exact Qedit_mono.
+    - apply op_mir_with_objs; [exact Hm|apply store_extends_put].
+    - apply frame_edit_body.
+    - cbn [op_world]. now apply wsat_put_plain; [apply Qedit_mono|].
+    - cbn [op_world op_state]. intros Hc T. rewrite cur_put_plain in Hc.
+      apply edit_body_sat; [exact T|]. cbn [begin_txn t_objs op_world with_objs w_objs].
+      right. split.
+      + rewrite <- Hk, (patch_commit_cur _ _ Hc), Epc. discriminate.
+      + unfold ident_of. rewrite get_put_new. reflexivity.
+  Qed.
+End Edit.
+
+Lemma edit_changes_only_named :
+  forall lower_s, LowerOK lower_s ->
+  forall w loc meta msg w' x n o',
+    Inv w -> step lower_s w (CEdit loc meta msg) = (w', x) -> patch_commit w' n = Some o' ->
+    exists o, patch_commit w n = Some o
+      /\ (ident_of (w_objs w') o' = ident_of (w_objs w) o \/ ident_of (w_objs w') o' = Some (meta, msg)).
+Proof.
+  intros lower_s HL w loc meta msg w' x n o' Hi E En. cbn [step] in E.
+  pose proof (run_edit_sat w meta msg loc Hi) as H. rewrite E in H. cbn [fst] in H.
+  destruct (H n o' En) as [Hq|[Hn Hid]].
+  - apply Qid_ident in Hq as [o [H1 H2]]. exists o. auto.
+  - destruct (patch_commit w n) as [o|]; [|congruence]. exists o. auto.
+Qed.
+
+Lemma unchanged_edit_is_noop :
+  forall lower_s w op meta msg pn pc,
+    open_stack PAllow w = Some op -> head_top_ok op = true ->
+    last_error (s_applied (op_state op)) = Some pn -> pm_get (s_patches (op_state op)) pn = Some pc ->
+    ident_of (w_objs (op_world op)) pc = Some (meta, msg) ->
+    step lower_s w (CEdit None meta msg) = (op_world op, X0).
+Proof.
+  intros lower_s w op meta msg pn pc Eo Hh Hl Hp Hid. cbn [step]. unfold run_edit.
+  rewrite Eo. rewrite Hh. cbn [negb]. rewrite Hl. cbn [rres_bind]. rewrite Hp.
+  unfold ident_of in Hid. destruct (get (w_objs (op_world op)) pc) as [old|]; [|discriminate].
+  injection Hid as Hm Hs. rewrite Hm, Hs, N.eqb_refl.
+  change (str_eqb msg msg) with (name_eqb msg msg). rewrite name_eqb_refl. reflexivity.
 Qed.
 
 (* Model/Cmd.v leaves N_scope open; the statements of Properties/C08.v compare object ids
